@@ -3,7 +3,7 @@ import random
 
 STATES = {"str": ["q0", "q1", "q2", "q3"], "int": [0, 1, 2, 3], "short": ["q", "q0", "q1", "q00"]}
 INS = ["a", "b"]
-OUTS = ["x", "y", "z"]
+OUTS = ["x", "y", "xy", 1, "1"]      # ["x","y"] vs ["xy"], [1] vs ["1"]: equal when concatenated as text
 
 
 def random_case(rng, max_states=3, max_trans=6, vcs=None, allow_eps_out=False):
@@ -11,7 +11,7 @@ def random_case(rng, max_states=3, max_trans=6, vcs=None, allow_eps_out=False):
     trans = []
     for _ in range(rng.randint(1, max_trans)):
         a = -1 if rng.random() < 0.25 else rng.randrange(2)
-        out = [rng.randrange(3) for _ in range(rng.choice([0, 1, 1, 2]))]
+        out = [rng.randrange(len(OUTS)) for _ in range(rng.choice([0, 1, 1, 2]))]
         t = [rng.randrange(n), a, rng.randrange(n), out]
         if t not in trans:
             trans.append(t)
